@@ -575,6 +575,12 @@ func (b *BaseStore) Load(ctx context.Context, amount int) error {
 				return
 			}
 
+			if l, inErr = b.ownEntriesOnly(l); inErr != nil {
+				span.AddEvent("store-head-loading-error")
+				err = fmt.Errorf("unable to create log from entry hash: %w", inErr)
+				return
+			}
+
 			b.recalculateReplicationStatus(h.GetClock().GetTime())
 
 			span.AddEvent("store-head-loaded")
@@ -842,6 +848,10 @@ func (b *BaseStore) LoadFromSnapshot(ctx context.Context) error {
 		return fmt.Errorf("unable to load log: %w", err)
 	}
 
+	if log, err = b.ownEntriesOnly(log); err != nil {
+		return fmt.Errorf("unable to load log: %w", err)
+	}
+
 	if _, err = b.OpLog().Join(log, -1); err != nil {
 		return fmt.Errorf("unable to join log: %w", err)
 	}
@@ -851,6 +861,34 @@ func (b *BaseStore) LoadFromSnapshot(ctx context.Context) error {
 	}
 
 	return nil
+}
+
+// ownEntriesOnly returns l itself, or a log made of l's entries without those written for
+// another log. A load follows every reference of the entries it reads, refs as well as next,
+// so that an entry of this log can drag an entry of any other log in; if nothing in l names
+// it as next it is one of l's heads, and Join takes the heads of the joined log over without
+// looking at their log id: the foreign entry would become a head of the store's log
+func (b *BaseStore) ownEntriesOnly(l *ipfslog.IPFSLog) (*ipfslog.IPFSLog, error) {
+	entries := l.GetEntries().Slice()
+
+	own := make([]ipfslog.Entry, 0, len(entries))
+	for _, e := range entries {
+		if e.GetLogID() == l.GetID() {
+			own = append(own, e)
+		}
+	}
+
+	if len(own) == len(entries) {
+		return l, nil
+	}
+
+	return ipfslog.NewLog(b.IPFS(), b.Identity(), &ipfslog.LogOptions{
+		ID:               l.GetID(),
+		AccessController: b.AccessController(),
+		SortFn:           b.SortFn(),
+		IO:               b.options.IO,
+		Entries:          entry.NewOrderedMapFromEntries(own),
+	})
 }
 
 func intPtr(i int) *int {
